@@ -59,6 +59,7 @@ type pipeResult struct {
 	Problems []probObs         `json:"problems"`
 	Render   map[string]string `json:"render_errors,omitempty"`
 	Plain    bool              `json:"plain"` // no file comments, no ignore diagnostics (the Routing model applies)
+	TotalLines int             `json:"total_lines"` // File.TotalLines of the entries (-1 = no entry carried a File)
 }
 
 func init() { slog.SetDefault(slog.New(slog.NewTextHandler(io.Discard, nil))) }
@@ -109,8 +110,12 @@ func runPipeline(path string, strict bool, schema parser.Schema, names model.Val
 		gen := config.NewPrometheusGenerator(cfg, prometheus.NewRegistry())
 		defer gen.Stop()
 		res.Plain = true
+		res.TotalLines = -1
 		var reports []reporter.Report
 		for _, entry := range entries {
+			if entry.File != nil {
+				res.TotalLines = entry.File.TotalLines
+			}
 			eo := entryObs{}
 			if entry.PathError != nil {
 				var pe parser.ParseError
